@@ -190,8 +190,11 @@ def items(tier):
         i += 1
     out.append((i, 'file'))
     i += 1
-    for bs in ([0x41], [0x5c, 0x22], [0x00, 0xff, 0x0a], [], [0x27, 0x3b, 0x7f]):
+    for bs in ([0x41], [0x5c, 0x22], [0x00, 0xff, 0x0a], [], [0x27, 0x3b, 0x7f], [(7 * k + 33) % 256 for k in range(255)], [(5 * k + 1) % 256 for k in range(299)]):
         out.append((i, 'viaregs', bs))
+        i += 1
+    for n in (255, 256, 257, 300, 513):
+        out.append((i, 'longstr', n))
         i += 1
     import itertools as _it
     for vals in ([1, 2, 3, 200], [104, 105, 33], [0], [255, 0, 255, 0, 255, 0, 255, 0, 1]):
@@ -234,6 +237,14 @@ def run_item(item, tier):
         a, b = item[2], item[3]
         run_program(st, triple_program(a, b), [[]], Ws[:1], f'triples starting {a:#x} {b:#x}')
         st.add('cases', 256)
+    elif kind == 'longstr':
+        n = item[2]
+        body = ''.join(esc((37 * i + n) % 256) for i in range(n))
+        src = (f'string gl = "{body}";\nempty show(const byte[] v) {{ write(v.length); write(v[v.length - 1]); }}\nempty @is_you() {{ string l = "{body}"; '
+               f'write("{body}"); writeln("{body}".length); write(l.length); write(l[{n - 1}]); write(l[255 % {n}]); show(l is byte[]); show(gl); show("{body}"); write(gl); '
+               'const byte[] v = l is byte[]; write(v); write(v.length); write(l is bool); writeln(); }\n')
+        run_program(st, src, [[]], Ws, f'string of {n} bytes written, measured, indexed and viewed as bytes')
+        st.add('cases')
     elif kind == 'len':
         run_program(st, length_program(item[2], min(65, item[2] + 13)), [[]], Ws, f'string lengths {item[2]}..')
         st.add('cases', 13)
@@ -272,6 +283,7 @@ def coverage(total, tier):
         'raw': 'every printable ASCII character written literally in strings and character literals',
         'pairs': ('all 65536 ordered byte pairs' if tier == 'thorough' else 'ordered pairs with first byte in {\\\\, ", \', LF, CR, NUL, 0xff, A, ;, space, DEL, 0x80} x all 256') + ' (+ a 3-byte string indexed in the middle)',
         'triples': ('16 x 16 special leading byte pairs x all 256 third bytes, as strings and inside a constant byte array' if tier == 'thorough' else 'thorough tier only'),
+        'long strings': 'strings of 255, 256, 257, 300, 513 bytes as literal, local, global, parameter and byte view (written, .length, last and 256th index)',
         'lengths': 'strings of every length 0..64 (written, length, truthiness, last and middle index)',
         'file': 'a source file with raw control / non-ASCII characters (TAB, BS, VT, FF, ESC, DEL, NBSP, e-acute, U+2028, tab runs) inside string and character literals, compiled by `python -m hidc`',
         'viaregs': 'string -> const byte[] views and writes where the string comes from a local, a global, a call result, a const and a mutable string array element (5 byte patterns)',
